@@ -44,7 +44,7 @@ inductive OpRes where
   | ok (b : Bool) (calls : List Nat)
   | err (e : OpErr) (calls : List Nat)
   | panic (calls : List Nat)
-  deriving Repr
+  deriving Repr, DecidableEq
 
 def OpRes.addCalls (pre : List Nat) : OpRes → OpRes
   | .ok b c => .ok b (pre ++ c)
